@@ -23,6 +23,7 @@ const modPath = "github.com/openacid/low"
 
 type World struct {
 	Prog       *ssa.Program
+	Trusted    map[string]bool // functions whose contract is trusted (body not verified)
 	Fset       *token.FileSet
 	Pkgs       map[string]*ssa.Package
 	PPkgs      map[string]*packages.Package
@@ -71,7 +72,7 @@ func LoadWorld(repo string, tags string, overlay map[string][]byte, patterns []s
 	w := &World{
 		Prog: prog, Fset: prog.Fset, Pkgs: map[string]*ssa.Package{}, PPkgs: map[string]*packages.Package{},
 		SpecFns: map[string]*SpecFn{}, Lemmas: map[string]*Lemma{}, FuncSpecs: map[string]*FuncSpec{},
-		SpecConsts: map[string]SVal{}, Assumes: map[string]bool{}, repo: repo, tags: tags,
+		SpecConsts: map[string]SVal{}, Assumes: map[string]bool{}, Trusted: map[string]bool{}, repo: repo, tags: tags,
 		ErrIDs: map[*ssa.Global]int{},
 	}
 	for _, p := range prog.AllPackages() {
@@ -382,7 +383,21 @@ func (w *World) retTy(fn *SpecFn) *STy {
 	return t
 }
 
+func ghostKey(name string) string { return "GH:" + name }
+
 func (w *World) applySpecFn(ev *Env, fn *SpecFn, args []SVal) SVal {
+	if fn.Ghost {
+		// ghost state: read the current (or, under old(), the entry) value from the state's heap
+		rt := w.retTy(fn)
+		flat := flatten(args[0])
+		if len(flat) != 1 || flat[0].S != RegSort || rt.scalarSort() == nil {
+			sfail("ghost %s: key must be an interface/reference, value a scalar", fn.Name)
+		}
+		if ev.st == nil {
+			sfail("ghost %s read without a state", fn.Name)
+		}
+		return fromElem(Select(ev.st.fheap(ghostKey(fn.Name), rt.scalarSort()), flat[0]), rt)
+	}
 	if fn.Body != nil && !fn.Recursive && !fn.Opaque {
 		return w.evalSpecBody(ev, fn, args)
 	}
